@@ -41,7 +41,7 @@ func init() {
 	core.Register(&core.Property{
 		ID:    "C02",
 		Level: "exploration",
-		Rule: "datasets with shrunken value pools (ties, null sort keys) x shallow filters x sort specifications of 0-5 fields over every sortable type (string, int32, int64, float, bool, datetime, path-prefixed, fk, id; asc / desc / implicit; id first or later, which switches the index scanner and the sorting scanner) " +
+		Rule: "datasets with shrunken value pools (ties, null sort keys next to empty-string sort keys) x shallow filters x sort specifications of 0-5 fields over every sortable type (string, int32, int64, float, bool, datetime, path-prefixed, fk, id; asc / desc / implicit; id first or later, which switches the index scanner and the sorting scanner) " +
 			"x the complete 10 x 10 boundary grid skip in {absent, 0, 1, n-1, n, n+1, -1, -5, 2^62, 2^63-1} x limit in {absent, none, 0, 1, n-1, n, n+1, -1, -7, 2^63-1}. " +
 			"The returned id sequence and count are compared with a sort/page oracle (nulls first ascending, ties by id ascending, max(skip,0), negative/none/absent limit unbounded, count = total matches) through QueryIds (text), and on a quarter of the grid QueryIdsC, QueryWithCursorC and a paged IterateIds (default order). " +
 			"non-trivial = distinct (sort, skip, limit, dataset) whose page is a proper non-empty sub-sequence or a boundary point",
@@ -176,7 +176,7 @@ func runC02(c *core.Ctx, idx int) {
 									cmp("IterateIds(paged)", idsOf(st.Store.IterateIds(tx, pq)), 0, nil, false)
 								}
 							}
-							// an index-driven cursor provider over two or three values of the set index: the page of the matching
+							// an index-driven cursor provider over one to three values of the set index: the page of the matching
 							// entities that hold one of them (every sort, both directions of the id scan)
 							if pq, perr := ast.Parse(st.Store, text); perr == nil {
 								vals := c02NumVals(r, env.w)
@@ -220,7 +220,7 @@ func runC02(c *core.Ctx, idx int) {
 	})
 }
 
-// c02NumVals picks two or three values of the nums set index (values in use when there are any).
+// c02NumVals picks one to three values of the nums set index (values in use when there are any).
 func c02NumVals(r *core.Rand, w *qx.World) []string {
 	seen := map[string]bool{}
 	var pool []string
@@ -235,7 +235,7 @@ func c02NumVals(r *core.Rand, w *qx.World) []string {
 	}
 	sort.Strings(pool)
 	pool = append(pool, "no-such-num")
-	n := 2 + r.Intn(2)
+	n := 1 + r.Intn(3) // one value: the index's own cursor; more: the merged set
 	var out []string
 	for i := 0; i < n; i++ {
 		out = append(out, core.Pick(r, pool))
